@@ -4,7 +4,7 @@ import re
 
 from ..engine import sym
 from ..engine.interp import Rec, ClassVal, Raised
-from ..engine.loader import Unknown, norm_text, walk_local
+from ..engine.loader import Unknown, norm_text, walk_local, public_qual
 from ..engine.sym import is_sym
 from ..rules import escape
 from ..rules.world import eager_interp, emit_report_summary, Shapes, STATE
@@ -115,7 +115,7 @@ def rule_G6(ck):
     for q, fn in repo.all_functions():
         if q.split("::")[0] in ("devices",):
             continue
-        reason = INTERNAL.get(q, "source")
+        reason = INTERNAL.get(q, INTERNAL.get(public_qual(q), "source"))
         sinks = []
         for n in walk_local(fn):
             if isinstance(n, ast.Compare):
@@ -261,6 +261,6 @@ def run(ck):
     ck.run_rule("C05.R9", "( ) / < > / ^x...x grouping is transparent", 3, c05.rule_R9)
     ck.run_rule("C05.R4", "the radix in which a number is written", 10, c05.rule_R4)
     ck.run_rule("C06.R23", "'.word' == implicit word list", 30, c06.rule_R23)
-    ck.run_rule("C06.R6e", "escape letters in any case", 10, c06.rule_escapes)
+    ck.run_rule("C06.R6e", "escape letters in any case", 129, c06.rule_escapes)
     ck.run_rule("C15.rad50", "RADIX-50 folds case", 12, c15.rule_rad50)
     ck.run_rule("C15.lit", "^R literal folds case", 3, c15.rule_literal)
